@@ -8,6 +8,18 @@ import numpy as np
 from .. import Dataset
 
 
+def _get_position(group):
+    """
+    The positions of the rows of a group: its own, or the ones of the mesh group.
+    """
+    pos = group.get("position", None)
+    if pos is None:
+        mesh = group.parent.get("mesh", None)
+        if mesh is not None:
+            pos = mesh.get("position", None)
+    return pos
+
+
 def extract_sphere(dataset, radius, origin):
     """
     Extract a spherical subdomain around an origin point.
@@ -16,11 +28,11 @@ def extract_sphere(dataset, radius, origin):
     subdomain.meta = dataset.meta.copy()
 
     for name, group in dataset.items():
-        pos = group.get("position", group.parent["amr"]["position"])
-        if pos.shape != group.shape:
+        pos = _get_position(group)
+        if (pos is None) or (pos.shape != group.shape):
             warnings.warn(
-                "Ignoring datagroup '{}', which has no position ".format(group)
-                + "vector and has different shape than 'amr' group."
+                "Ignoring datagroup '{}', which has no position ".format(name)
+                + "vector and has different shape than 'mesh' group."
             )
             continue
         r = (pos - origin).norm
@@ -39,11 +51,11 @@ def extract_box(dataset, dx, dy, dz, origin):
     subdomain.meta = dataset.meta.copy()
 
     for name, group in dataset.items():
-        pos = group.get("position", group.parent["amr"]["position"])
-        if pos.shape != group.shape:
+        pos = _get_position(group)
+        if (pos is None) or (pos.shape != group.shape):
             warnings.warn(
-                "Ignoring datagroup '{}', which has no position ".format(group)
-                + "vector and has different shape than 'amr' group."
+                "Ignoring datagroup '{}', which has no position ".format(name)
+                + "vector and has different shape than 'mesh' group."
             )
             continue
         centered_pos = pos - origin
